@@ -36,7 +36,7 @@ class C12(Check):
         prof = gen.profile(
             n_tasks=(1, 3), p_optional=0.35, p_zero=0.12, p_variable=0.25, p_release=0.1, p_due=0.1, n_workers=(0, 2), p_select=0.4,
             p_cumulative=0.1, p_assign=0.5, p_dynamic=0.1, p_horizon=1.0, slack=(0, 2 if not big else 3), constraints=SAFE_CONSTRAINTS,
-            n_constraints=(0, 2), objectives=["MinimizeMakespan", "MinimizeFlowtime"] if rng.random() < 0.15 else [], n_objectives=(1, 1),
+            n_constraints=(0, 2), objectives=["MinimizeMakespan", "MinimizeFlowtime"] if rng.random() < 0.25 else [], n_objectives=(1, 1),
         )
         spec = gen.gen_spec(keyed_rng(run_seed, "spec"), prof)
         spec["horizon"] = min(spec["horizon"], 7 if big else 6)
@@ -56,7 +56,10 @@ class C12(Check):
                 t = rng.choice(spec["tasks"])["id"]
                 step = {"client": "A", "op": "find_another_for", "if_model": True, "args": {"var": rng.choice([f"s:{t}", f"e:{t}"])}}
             if fault_at == j:
-                step["env"] = [{"verdict": "unknown", "reason": "canceled"}]
+                # transient: the k-th engine check of this one call answers unknown (with an
+                # objective a call runs several checks), later calls are fault-free
+                k = rng.choice([0, 0, 1, 2]) if spec.get("objectives") else 0
+                step["env"] = [{} for _ in range(k)] + [{"verdict": "unknown", "reason": "canceled"}]
             elif nudged and rng.random() < 0.7:
                 step["default"] = {"steer": self.steer(rng, 200 + j, later=True) or {"mode": "greedy", "key": 200 + j}}
             plan["script"].append(step)
